@@ -23,6 +23,11 @@ theorem isPlugin_plugin (id name : String) (kinds : List Str) (f : Env → M (Op
       simp only [hf, Except.map, Option.map] at h
       cases h; rfl
 
+/-- the same for a position-using plugin check (`Check.pluginPos`: same `run`) -/
+theorem isPlugin_pluginPos (id name : String) (kinds : List Str) (f : Env → M (Option PRaw)) :
+    IsPlugin (Check.pluginPos id name kinds f) :=
+  fun e raw h => isPlugin_plugin id name kinds f e raw h
+
 def eventId : Event → Option Str
   | .finding f => some f.id
   | .nosec f => some f.id
